@@ -1193,6 +1193,12 @@ def crypto_history(seed, nops=40):
     epub = h.op(f"create @{k} 0={U(2)} 100={U(3)} 3={hx(h.new_label())} 180={P256} 181={pt} 10a=01")
     eprv = h.op(f"create @{k} 0={U(3)} 100={U(3)} 3={hx(h.new_label())} 180={P256} 11={d.to_bytes(32, 'big').hex()} 108=01 2=01 103=00 162=01")
     h.minted += 14
+    # pairs generated ON the token over other named curves (the monitor learns the public point from C_GetAttributeValue): P-384, P-521, P-224, secp160r1, secp224k1, secp256k1
+    ecx = []
+    for oid in ("06052b81040022", "06052b81040023", "06052b81040021", "06052b81040008", "06052b81040020", "06052b8104000a"):
+        g = h.op(f"genpair @{k} 1040 180={oid} 3={hx(h.new_label())} 10a=01 / 3={hx(h.new_label())} 108=01 2=01"); h.minted += 2
+        h.op(f"getattr @{k} @{g} 181:300")
+        ecx.append(g)
     lens = [0, 1, 15, 16, 17, 31, 32, 33, 47, 48, 64, 100]
     recorded = []     # (kind, mech token, key ref, plaintext hex, op index of the output) for decrypt / verify of the token's own outputs
     for _ in range(nops):
@@ -1248,6 +1254,8 @@ def crypto_history(seed, nops=40):
                 if mech.startswith("d:"): data = rb(32)          # CKM_RSA_PKCS_PSS signs a hash value of the stated hash's length
             else:
                 mech = "1041"; key = eprv; data = rb(rng.choice([20, 32, 32, 48]))
+                if rng.random() < 0.5:
+                    g = rng.choice(ecx); key = f"{g}.1"; data = rb(rng.choice([20, 28, 32, 48, 64]))
             h.op(f"siginit @{k} {mech} @{key}")
             if rng.random() < 0.5 or mech in ("1", "1041") or mech.startswith("d:"):
                 for _ in range(rng.choice([0, 0, 1, 2])): h.op(f"sign @{k} {data} {rng.choice(['n', '0', '5', '19'])}")
@@ -1258,6 +1266,7 @@ def crypto_history(seed, nops=40):
                 so = h.op(f"sigfinal @{k} 600")
             # verification of the token's own signature: untouched, data changed, signature changed
             vkey = {rprv: rpub, eprv: epub}.get(key, key)
+            if isinstance(key, str) and key.endswith(".1"): vkey = key[:-2]
             for variant in rng.sample(["same", "data", "sig", "sig"], 2):
                 h.op(f"verinit @{k} {mech} @{vkey}")
                 d2 = flip(rng, data) if variant == "data" else data
